@@ -40,6 +40,17 @@ def structure(draw, max_chains=3, nmax=6, wild=False, contact=True, waters=True,
             ch["drop_spec"] = dict(res=ri, atom=draw(st.integers(0, 30)),
                                    mode=draw(st.sampled_from(["tail", "tail", "gap", "backbone-O"])))  # fmt: skip
         chains.append(ch)
+    if len(chains) >= 2 and draw(st.integers(0, 5)) == 0:
+        # a homo-oligomer: the second chain is an exact copy of the first (same sequence, conformation,
+        # numbering, hydrogens), only translated and with its own id
+        import copy
+
+        twin = copy.deepcopy(chains[0])
+        twin["id"] = chains[1]["id"]
+        twin.pop("contact", None)
+        twin.pop("ss_to", None)
+        twin["shift"] = [55.0, draw(strat.fl(-5.0, 5.0)), draw(strat.fl(-5.0, 5.0))]
+        chains[1] = twin
     desc = dict(chains=chains)
     order = draw(st.sampled_from([None, None, None, None, "others-first", "reverse-chains", "interleave"]))
     if order:
@@ -249,6 +260,7 @@ def add_hidden_ends(draw, desc):
     applied."""
     if len(desc["chains"]) < 2 or desc.get("cif"):
         return False
+    desc.pop("order", None)  # the construction relies on the file order (OXT of the part written first)
     a, b = desc["chains"][0], desc["chains"][1]
     if a["start"] > 9000:
         a["start"] = 1
